@@ -97,7 +97,7 @@ MF=$SCR/harness.mod
   echo "  github.com/junioryono/godi/v4 v4.0.0"
   for m in http chi gin echo fiber; do echo "  github.com/junioryono/godi/v4/$m v0.0.0"; done
   # framework versions: taken from the integration modules' own go.mod
-  for m in chi gin echo fiber; do
+  for m in gin echo fiber; do
     grep -E '^\s+github.com/(go-chi/chi/v5|gin-gonic/gin|labstack/echo/v4|gofiber/fiber/v2) ' "$SCR/src/$m/go.mod" | head -1
   done
   echo ")"
